@@ -53,7 +53,10 @@ CHECKS = {
                   "a second process loading every committed path after every evaluation",
         text="The spec commits the requested path->cone map once at the end of a successful evaluation; TLC checks PathsServed. "
              "In the replay every evaluation runs in its own process and a different process then calls dds.load for every "
-             "path the spec says is committed (kept now or earlier); the loaded value must equal the spec's served value.",
+             "path the spec says is committed (kept now or earlier); the loaded value must equal the spec's served value, and so must "
+             "the content of the file found under the data directory (local store, local store with object cache, and the "
+             "Databricks store over the in-process fake of dbutils.fs). The recorded store operations of every replay, of the "
+             "repository's own tests and of the specification itself are judged against the store protocol EvalProto by TLC.",
         design_ref="DESIGN.md 5 C04"),
     "C09": dict(
         engine="tlc-design+tlc-generate",
